@@ -6,6 +6,7 @@ import (
 	"encoding/json"
 	"fmt"
 	"math/rand"
+	"os"
 	"strings"
 	"sync"
 	"testing"
@@ -162,7 +163,7 @@ func (Engine) Execute(t *testing.T, cfg simkit.RunConfig, scenario any) *simkit.
 		vs = append(vs, m.out...)
 	}
 	res.Violations = filterProp(vs, cfg.Property)
-	if len(res.Violations) > 0 {
+	if len(res.Violations) > 0 || os.Getenv("VERIF_DUMP") != "" {
 		res.Log = append(res.Log, histLines(w.Hist)...)
 		for _, r := range trace {
 			res.Log = append(res.Log, fmtRec(r))
